@@ -5,7 +5,8 @@
     codecs hand to writeRIFF); the pixel codecs are parameters. *)
 From Coq Require Import List ZArith Bool.
 From Webp Require Import Base.Res Base.Bytes Riff.ParserModel Riff.ParserSpec Riff.WriterModel
-     Riff.FeaturesModel Riff.MetadataProofs Riff.ParserProofs Riff.WriterTheorems.
+     Riff.FeaturesModel Riff.MetadataProofs Riff.ParserProofs Riff.WriterTheorems Riff.ParserGrammar.
+From Webp Require Riff.RiffGrammar.
 Import ListNotations.
 Open Scope Z_scope.
 
@@ -40,6 +41,30 @@ Theorem C15_metadata_roundtrip :
                               else if fourcc =? FourCCVP8L then FormatVP8L else FormatVP8)).
 Proof. exact metadata_roundtrip. Qed.
 Print Assumptions C15_metadata_roundtrip.
+
+(** The encoder's container writer only emits files that the independent
+    grammar of the container specification (Riff.RiffGrammar.wf, C14 / C02 area,
+    tags as byte strings) accepts: RIFF size, chunk sizes, zero padding, order
+    ICCP -> ALPH -> image -> EXIF -> XMP, VP8X flags = exactly the chunks present
+    incl. the VP8L alpha bit, reserved bits zero, canvas = bitstream dimensions. *)
+Theorem C15_writer_output_wf : forall fourcc bs alpha w h icc exif xmp a,
+  writer_inputs_ok fourcc bs alpha w h icc exif xmp a ->
+  bytes_ok bs -> bytes_ok alpha -> bytes_ok icc -> bytes_ok exif -> bytes_ok xmp ->
+  exists file, write_riff fourcc bs alpha w h icc exif xmp = Ok file /\ RiffGrammar.wf file = true.
+Proof. exact writer_output_wf. Qed.
+Print Assumptions C15_writer_output_wf.
+
+(** The two specifications agree on stills: ParserSpec.riff_wf implies
+    RiffGrammar.wf, and a RiffGrammar.wf file with a clear animation flag
+    satisfies ParserSpec.riff_wf. *)
+Theorem C15_riff_wf_grammar : forall file, bytes_ok file -> riff_wf file = true -> RiffGrammar.wf file = true.
+Proof. exact riff_wf_grammar. Qed.
+Print Assumptions C15_riff_wf_grammar.
+
+Theorem C15_grammar_still_riff_wf : forall file,
+  RiffGrammar.wf file = true -> g_is_anim file = false -> riff_wf file = true /\ bytes_ok file.
+Proof. exact grammar_still_riff_wf. Qed.
+Print Assumptions C15_grammar_still_riff_wf.
 
 (** Changing only the metadata changes neither the image / ALPH chunk bytes, nor
     the frame the parser hands to the codecs, nor (for every choice of codecs)
